@@ -121,6 +121,8 @@ def _sign(e: ast.expr, env: dict, depth: int = 0) -> str:
         return "any"
     if isinstance(e, ast.Call):
         fn = norm(e.func)
+        if fn == "__unknown__":
+            return "unknown"
         if fn in _NONNEG_FUNCS:
             return "nonneg"
         if fn in _SIGN_PRESERVING and e.args:
@@ -189,16 +191,44 @@ def _check_nonnegative_schemes(prog: Program, L: Ledger, afb, schemes: ast.Dict)
         if f0 is None:
             continue
         f = flat(prog, f0, afb, public_methods=True)
+        # statements are followed in source order: a local that is bound again (`v = std(c); v = v / mean(|c|)`, the
+        # rebinding form of `v /= …`) has, at each point, the sign of its latest binding; a name bound in several arms keeps
+        # the weakest of them
         env: dict = {"__prog__": prog, "__fi__": f}
-        for st in walk_no_nested(f.node):
-            if isinstance(st, ast.Assign) and len(st.targets) == 1 and isinstance(st.targets[0], ast.Name):
-                nm_ = st.targets[0].id
-                if nm_ not in env:
-                    env[nm_] = st.value
-                else:
-                    env[nm_] = (env[nm_] if isinstance(env[nm_], list) else [env[nm_]]) + [st.value]
-        for r in [s_ for s_ in walk_no_nested(f.node) if isinstance(s_, ast.Return) and s_.value is not None]:
-            sg = _sign(r.value, env)
+        returns: list[tuple[ast.Return, str]] = []
+
+        def mark(sg_: str):
+            return ast.Constant(value=0) if sg_ == "nonneg" else (ast.Name(id="__signed__", ctx=ast.Load()) if sg_ == "any" else ast.Call(func=ast.Name(id="__unknown__", ctx=ast.Load()), args=[], keywords=[]))
+
+        def walk(stmts_, env_):
+            for st in stmts_:
+                if isinstance(st, (ast.Assign, ast.AnnAssign)) and st.value is not None:
+                    tg_ = st.targets if isinstance(st, ast.Assign) else [st.target]
+                    if len(tg_) == 1 and isinstance(tg_[0], ast.Name):
+                        env_[tg_[0].id] = mark(_sign(st.value, env_))
+                elif isinstance(st, ast.AugAssign) and isinstance(st.target, ast.Name):
+                    env_[st.target.id] = mark(_sign(ast.BinOp(left=ast.Name(id=st.target.id, ctx=ast.Load()), op=st.op, right=st.value), env_))
+                elif isinstance(st, ast.Return) and st.value is not None:
+                    returns.append((st, _sign(st.value, env_)))
+                elif isinstance(st, (ast.If, ast.Try, ast.For, ast.While, ast.With)):
+                    arms = [getattr(st, fld) for fld in ("body", "orelse", "finalbody") if getattr(st, fld, None)] + [h.body for h in getattr(st, "handlers", []) or []]
+                    outs = []
+                    for arm in arms:
+                        e2 = dict(env_)
+                        walk(arm, e2)
+                        outs.append(e2)
+                    for k_ in {k for o_ in outs for k in o_}:
+                        vals_ = [o_.get(k_, env_.get(k_)) for o_ in outs] + ([env_[k_]] if k_ in env_ and isinstance(st, (ast.If, ast.For, ast.While)) and not getattr(st, "orelse", None) else [])
+                        if any(v_ is None for v_ in vals_):
+                            env_.pop(k_, None)
+                            continue
+                        sgs_ = [_sign(v_, env_) if not isinstance(v_, (str,)) else v_ for v_ in vals_ if not k_.startswith("__")]
+                        if k_.startswith("__"):
+                            continue
+                        env_[k_] = mark("unknown" if "unknown" in sgs_ else ("nonneg" if all(s_ == "nonneg" for s_ in sgs_) else "any"))
+
+        walk(f.body(), env)
+        for r, sg in returns:
             n += 1
             if sg == "unknown":
                 raise AnalysisError(f"{f.qualname}: sign of the returned coefficient `{norm(r.value)[:80]}` is outside the sign rules")
